@@ -46,6 +46,9 @@ C["C12"] = dict(
 C["C19"] = dict(
   text="Lean 4 theorems over the dispatch model of `imdl completions` with the script text an arbitrary function of the shell: for each supported shell `--dir D --shell S` writes exactly one file, named by the (source-extracted, proved documented) table, holding exactly what `--shell S` prints; `--dir D` alone writes all five files under five distinct names; shell given twice or neither shell nor directory is a usage error. The finite configuration space (5 shells x flag/short/positional/both/none/unknown x dir forms) is enumerated completely on the real binary every run with a sandbox snapshot (byte identity of stdout and files, nothing else written, scripts name every subcommand scraped from --help).",
   note="Trusted: Lean kernel; clap generators opaque; exhaustive enumeration ties the dispatch model to the code.")
+C["C18"] = dict(
+  text="Lean 4 theorems over the stream state machine of Env/OutputStream (initialisation from NO_COLOR, TERM and tty detection; --color, --terminal, --quiet) for every configuration and every list of writes: --quiet leaves standard error empty and never changes standard output; standard output carries exactly the writes addressed to it; on a non-terminal standard output without --color always no escape sequence is emitted for escape-free data (also under --terminal); exit status 0 on success/help/version and 1 on every failure including usage errors. Correspondence: complete enumeration on the real binary with pipes of 11 scenarios x success/failure x --quiet x --color x --terminal x {NO_COLOR, TERM=dumb, TERM=xterm}: stdout compared byte-for-byte with the expected payload (-o - vs the file written without it, one magnet line, one JSON line, peer lines from a loopback tracker), stderr emptiness and styling against the model's stream state, exit status.",
+  note="Trusted: Lean kernel; tty-only behaviour (progress bars) not observable through pipes (partial); exhaustive enumeration ties the model to the code.")
 
 
 def main():
